@@ -176,7 +176,13 @@ func (c *c34Client) onEvent(e *h2cli.Event) {
 		off := c.recvd[id]
 		for i, b := range e.Data {
 			if b != c34Byte(id, off+int64(i)) {
-				c.flag("data-order-or-content", fmt.Sprintf("stream %d: octet at offset %d differs from what the handler wrote at that offset", id, off+int64(i)))
+				if c.rstSent[id] {
+					// frames may still arrive between the client's RST_STREAM and the PING ack, but they
+					// must carry what the handler produced
+					c.flag("data-corrupt-after-client-reset", fmt.Sprintf("stream %d (reset by the client, PING not yet acknowledged): octet at offset %d of a DATA frame differs from what the handler wrote at that offset", id, off+int64(i)))
+				} else {
+					c.flag("data-order-or-content", fmt.Sprintf("stream %d: octet at offset %d differs from what the handler wrote at that offset", id, off+int64(i)))
+				}
 				break
 			}
 		}
